@@ -480,7 +480,9 @@ func c07(c *Ctx) {
 		// ever deliver the first revision)
 		flows := false
 		for _, s := range methodCallOn(fn, "claim.Unstructured).SetCompositionRevisionReference", cm) {
-			if flow.Default.Any(cfgx.CallArgs(s)[0], func(v ssa.Value) bool { return hasSuffixCall(v, "composite.Unstructured).GetCompositionRevisionReference") }) {
+			if flow.Default.Any(cfgx.CallArgs(s)[0], func(v ssa.Value) bool {
+				return hasSuffixCall(v, "composite.Unstructured).GetCompositionRevisionReference")
+			}) {
 				flows = true
 			}
 		}
